@@ -1,4 +1,4 @@
-(* deps: gendb.ml *)
+(* deps: gendb.ml genwire.ml *)
 (* Model driver for generated message types (C03, C10): replays every history the generic runner
    (harness/genrun) executed on the generated Go types through the descriptor interpreter
    extracted from Coq (Gen/Message.v, Gen/History.v), over the database each program DENOTES
@@ -246,6 +246,7 @@ let handle line =
   if String.length line > 2 && String.sub line 0 2 = "H " then handle_hist line
   else if String.length line > 2 && String.sub line 0 2 = "D " then handle_dsp line
   else if String.length line > 3 && List.mem (String.sub line 0 3) [ "PW "; "PA "; "PR "; "PS "; "PG " ] then handle_phys line
+  else if Genwire.handle_wire db_of line then ()
   else if String.length line > 4 && String.sub line 0 4 = "PKG " then ()
   else failwith ("unparsable line: " ^ line)
 
@@ -260,4 +261,5 @@ let () =
   Printf.printf "OPS {\"operations\":%d,\"physical_setter_ops\":%d,\"physical_setter_ops_exact\":%d,\"op_kinds\":{%s}}\n" !n_ops !n_phys !n_phys_exact (String.concat "," (List.sort compare ks));
   Printf.printf "CLASS {\"messages_satisfying_theorem_hypotheses\":%d,\"messages_outside\":%d,\"outside\":[%s]}\n"
     !n_msgs_in_class !n_msgs_out_class (String.concat "," (List.map (fun s -> "\"" ^ s ^ "\"") !out_of_class));
+  Genwire.print_wire_stats ();
   print_stats ()
